@@ -429,6 +429,9 @@ func init() {
 		return &Built{Msgs: []sdk.Msg{distrtypes.NewMsgWithdrawDelegatorReward(gmustAddr(w, t.S).String(), valAddr(w, t.A.Int("val")))}}, nil
 	})
 	RegisterTx("g_deposit", func(w *World, t *Tx) (*Built, error) {
+		if t.A.Bool("legacy") { // the v1beta1 message: another Msg service, the same rules
+			return &Built{Msgs: []sdk.Msg{govv1beta1.NewMsgDeposit(gmustAddr(w, t.S), t.A.U64("id"), sdk.NewCoins(fxc(t.A.SdkInt("amount"))))}}, nil
+		}
 		return &Built{Msgs: []sdk.Msg{govv1.NewMsgDeposit(gmustAddr(w, t.S), t.A.U64("id"), sdk.NewCoins(fxc(t.A.SdkInt("amount"))))}}, nil
 	})
 	// g_vote: opts = "1" or weighted "1:0.6|3:0.4" (option:weight)
@@ -436,6 +439,9 @@ func init() {
 		voter := gmustAddr(w, t.S)
 		parts := strings.Split(t.A.Str("opts"), "|")
 		if len(parts) == 1 && !strings.Contains(parts[0], ":") {
+			if t.A.Bool("legacy") {
+				return &Built{Msgs: []sdk.Msg{govv1beta1.NewMsgVote(voter, t.A.U64("id"), govv1beta1.VoteOption(t.A.Int("opts")))}}, nil
+			}
 			return &Built{Msgs: []sdk.Msg{govv1.NewMsgVote(voter, t.A.U64("id"), govv1.VoteOption(t.A.Int("opts")), "")}}, nil
 		}
 		var opts govv1.WeightedVoteOptions
